@@ -563,7 +563,7 @@ func execOp(x *xctx, s *c19session, model settingsModel, o c19op) (settingsModel
 		if r.Panic != "" {
 			return model, violf("panic", "render panicked: %s", r.Panic)
 		}
-		if r.Code != 200 {
+		if !httpOK(r.Code) {
 			return model, nil
 		}
 		menu, err := parseMenu(r.Body)
@@ -593,7 +593,7 @@ func execOp(x *xctx, s *c19session, model settingsModel, o c19op) (settingsModel
 		if r2.Panic != "" {
 			return model, violf("panic", "saveconfig panicked: %s", r2.Panic)
 		}
-		if r2.Code != 200 {
+		if !httpOK(r2.Code) {
 			return model, violf("round-trip-rejected", "saving the menu URL of %q was rejected: %d %s", o.From, r2.Code, short(r2.Body, 100))
 		}
 		out := model.clone()
@@ -613,10 +613,10 @@ func execOp(x *xctx, s *c19session, model settingsModel, o c19op) (settingsModel
 	}
 	switch o.Kind {
 	case "save", "delete":
-		if mustOK && r.Code != 200 {
+		if mustOK && !httpOK(r.Code) {
 			return model, violf("op-rejected", "%s answered %d %q, expected success", o, r.Code, short(r.Body, 100))
 		}
-		if !mustOK && r.Code == 200 {
+		if !mustOK && httpOK(r.Code) {
 			return model, violf("op-accepted", "%s answered 200, expected an error (model %s)", o, model)
 		}
 		if v := checkAgainst(next, o.String()); v != nil {
@@ -627,7 +627,7 @@ func execOp(x *xctx, s *c19session, model settingsModel, o c19op) (settingsModel
 		}
 		return next, nil
 	case "render":
-		if r.Code != 200 {
+		if !httpOK(r.Code) {
 			return model, nil // e.g. invalid regexp in a filter: reported as an error
 		}
 		menu, err := parseMenu(r.Body)
@@ -722,6 +722,10 @@ func opStrings(ops []c19op) []string {
 	}
 	return out
 }
+
+// httpOK: the request was accepted (any 2xx; the property does not fix the
+// status code of a successful save, delete or page).
+func httpOK(code int) bool { return code >= 200 && code < 300 }
 
 func resultViolation(res simrt.Result) *violation {
 	for _, p := range res.Panics {
@@ -899,14 +903,14 @@ func c19Faults(x *xctx) *violation {
 			}
 			x.states[st.String()] = true
 			switch got := st.String(); {
-			case r.Code == 200 && got != postS:
+			case httpOK(r.Code) && got != postS:
 				viol = violf("acknowledged-but-lost", "%s during %s: request answered 200 but settings.json holds %s, not %s", pl.desc, op, got, postS)
 				return
-			case r.Code != 200 && got != preS && got != postS:
+			case !httpOK(r.Code) && got != preS && got != postS:
 				viol = violf("mixed-after-fault", "%s during %s: settings.json holds %s, neither the previous %s nor the new %s", pl.desc, op, got, preS, postS)
 				return
 			}
-			if r.Code != 200 {
+			if !httpOK(r.Code) {
 				x.probe("failed_op_reported")
 			}
 			// Faults have stopped: a following save must go through in this same process.
@@ -976,7 +980,7 @@ func c19Liveness(x *xctx, s *c19session, probeOp c19op, faultDesc string, afterR
 	if r.Panic != "" {
 		return violf("panic", "save after %s panicked: %s", faultDesc, r.Panic)
 	}
-	if r.Code != 200 {
+	if !httpOK(r.Code) {
 		return violf("stuck-after-fault", "after %s (restart=%v) a following save fails: %d %s", faultDesc, afterRestart, r.Code, short(r.Body, 160))
 	}
 	if v := checkAgainst(want, "save after "+faultDesc); v != nil {
@@ -1274,7 +1278,7 @@ func linearizable(init settingsModel, calls []c19call, final string) bool {
 				continue
 			}
 			next, mustOK := m.apply(calls[i].op)
-			if mustOK != (calls[i].code == 200) {
+			if mustOK != (httpOK(calls[i].code)) {
 				continue
 			}
 			used[i] = true
